@@ -162,10 +162,37 @@ func (in *Interp) goValue(v Value) (interface{}, bool) {
 	return nil, false
 }
 
+// onlyStringVerbs reports whether every verb of the format is %s or %v (then
+// fmt prints a Stringer / error argument through its method).
+func onlyStringVerbs(format string) bool {
+	for i := 0; i < len(format); i++ {
+		if format[i] != '%' {
+			continue
+		}
+		i++
+		if i >= len(format) || (format[i] != 's' && format[i] != 'v' && format[i] != '%') {
+			return false
+		}
+	}
+	return true
+}
+
 func (in *Interp) sprintf(format string, args []Value) Value {
 	var gargs []interface{}
+	strVerbs := onlyStringVerbs(format)
 	for _, a := range args {
 		g, ok := in.goValue(a)
+		if !ok && strVerbs {
+			if iv, isI := a.(Iface); isI && iv.T != nil {
+				if _, isErr := iv.V.(*ErrVal); !isErr {
+					if m := in.methodOf(iv.T, nil, "String"); m != nil && m.Blocks != nil {
+						if s, isS := in.callFunction(m, []Value{iv.V}, nil, token.NoPos).(string); isS {
+							g, ok = s, true
+						}
+					}
+				}
+			}
+		}
 		if !ok {
 			return &SymStr{Desc: format}
 		}
